@@ -1,3 +1,131 @@
+/-
+  C05 — Condorcet methods elect the Condorcet winner and stay in the Smith set.
+  Property theorems only (helper lemmas live in VotelibProofs/Lemmas).  Namespace VL.C05.
+
+  Reading: as in C06 — `WF votes` = distinct keys, no self-pair, non-negative counts; candidates = names
+  in keys; absent pair = 0 : 0; `IsCW v w` = `w` is a candidate and `d w o > d o w` for every other
+  candidate `o`.
+-/
+import VotelibProofs.Lemmas.Schulze
+import VotelibProofs.Lemmas.SmithModel
 import VotelibModel.CondorcetRanked
 namespace VL.C05
+open VL VL.Condorcet
+
+/-! ### Condorcet-winner consistency, one seat -/
+
+/-- **Copeland** (with or without second-order tie-breaking) elects exactly the Condorcet winner. -/
+theorem cw_copeland {v : Pairwise} (hwf : WF v) {w : Cand} (hw : IsCW v w) (secondOrder : Bool) :
+    copeland secondOrder v 1 = [Slot.cand w] := by
+  unfold copeland
+  simp only [copeland_scores_cw hwf hw]
+  simp [isTie]
+
+/-- **Minimax by winning votes** elects exactly the Condorcet winner. -/
+theorem cw_minimax_wv {v : Pairwise} (hwf : WF v) {w : Cand} (hw : IsCW v w) :
+    minimax .winningVotes v 1 = [Slot.cand w] := by
+  apply minimax_cw_of_scores _ _ hw.1
+  · intro t ht
+    obtain ⟨e, he, rfl⟩ := List.mem_map.1 ht
+    obtain ⟨hev, hew⟩ := List.mem_filter.1 he
+    simp only [decide_eq_true_eq] at hew
+    obtain ⟨⟨x, y⟩, cnt⟩ := e
+    simp only at hew
+    subst hew
+    have hx : x ∈ candidates v := fst_mem_candidates hev
+    have hne : x ≠ y := hwf.2.1 _ hev
+    have hb := hw.2 x hx hne
+    have hcnt : pget v (x, y) = cnt := pget_of_mem hwf.1 hev
+    simp only [scoreOf]
+    rw [← hcnt]
+    rw [if_neg (not_lt.2 (le_of_lt hb))]
+  · intro o ho hne
+    have hb := hw.2 o ho hne
+    have hpos : 0 < pget v (w, o) := lt_of_le_of_lt (pget_nonneg hwf _) hb
+    refine ⟨pget v (w, o), ?_, hpos⟩
+    refine List.mem_map.2 ⟨((w, o), pget v (w, o)), List.mem_filter.2 ⟨pget_pos_mem hpos, by simp⟩, ?_⟩
+    simp only [scoreOf]
+    exact if_pos hb
+
+/-- **Minimax by margins** elects exactly the Condorcet winner. -/
+theorem cw_minimax_margins {v : Pairwise} (hwf : WF v) {w : Cand} (hw : IsCW v w) :
+    minimax .margins v 1 = [Slot.cand w] := by
+  apply minimax_cw_of_scores _ _ hw.1
+  · intro t ht
+    obtain ⟨e, he, rfl⟩ := List.mem_map.1 ht
+    obtain ⟨hev, hew⟩ := List.mem_filter.1 he
+    simp only [decide_eq_true_eq] at hew
+    obtain ⟨⟨x, y⟩, cnt⟩ := e
+    simp only at hew
+    subst hew
+    have hx : x ∈ candidates v := fst_mem_candidates hev
+    have hne : x ≠ y := hwf.2.1 _ hev
+    have hb := hw.2 x hx hne
+    have hcnt : pget v (x, y) = cnt := pget_of_mem hwf.1 hev
+    simp only [scoreOf]
+    rw [← hcnt]
+    unfold Beats at hb
+    linarith
+  · intro o ho hne
+    have hb := hw.2 o ho hne
+    have hpos : 0 < pget v (w, o) := lt_of_le_of_lt (pget_nonneg hwf _) hb
+    refine ⟨pget v (w, o) - pget v (o, w), ?_, by unfold Beats at hb; linarith⟩
+    exact List.mem_map.2 ⟨((w, o), pget v (w, o)), List.mem_filter.2 ⟨pget_pos_mem hpos, by simp⟩, rfl⟩
+
+/-! ### nobody who took part in a pairwise contest is dropped -/
+
+/-- **Copeland**: with at least as many seats as candidates every candidate is listed. -/
+theorem no_candidate_dropped_copeland (v : Pairwise) (secondOrder : Bool) (n : Nat)
+    (hn : (candidates v).length ≤ n) : ∀ c ∈ candidates v, Slot.cand c ∈ copeland secondOrder v n := by
+  intro c hc
+  unfold copeland
+  simp only
+  have hlen : (seededScores v (copelandScoresRaw (pairwiseWins v false))).length ≤ n := by
+    rw [length_seededScores]; exact hn
+  have hnotie : (getNBest (seededScores v (copelandScoresRaw (pairwiseWins v false))) n).any isTie = false := by
+    rw [List.any_eq_false]
+    intro s hs
+    obtain ⟨c', rfl⟩ := getNBest_all_noTie hlen s hs
+    simp [isTie]
+  rw [hnotie]
+  simp only [Bool.and_false, Bool.false_eq_true, if_false]
+  exact mem_getNBest_all hlen (by rw [keys_seededScores]; exact hc)
+
+/-- **Minimax** (any scorer): with at least as many seats as candidates every candidate is listed. -/
+theorem no_candidate_dropped_minimax (sc : Scorer) (v : Pairwise) (n : Nat)
+    (hn : (candidates v).length ≤ n) : ∀ c ∈ candidates v, Slot.cand c ∈ minimax sc v n := by
+  intro c hc
+  rw [minimax_eq]
+  have hk := okeys_maxCounterscore sc v
+  apply mem_getNBest_all
+  · rw [List.length_map]
+    have : (maxCounterscore sc v).length = (okeys (maxCounterscore sc v)).length := by simp [okeys]
+    rw [this, hk]; exact hn
+  · simp only [keys, List.map_map, Function.comp_def]
+    change c ∈ okeys (maxCounterscore sc v)
+    rw [hk]; exact hc
+
+/-- **Schulze**: with at least as many seats as candidates every candidate is listed. -/
+theorem no_candidate_dropped_schulze (v : Pairwise) (n : Nat)
+    (hn : (candidates v).length ≤ n) : ∀ c ∈ candidates v, Slot.cand c ∈ schulze v n := by
+  intro c hc
+  unfold schulze
+  simp only
+  have hk := keys_schulzeScores v
+  apply mem_getNBest_all
+  · have : ∀ d : Votes, d.length = (keys d).length := fun d => by simp [keys]
+    rw [this, hk]; exact hn
+  · rw [hk]; exact hc
+
+/-! ### non-vacuity -/
+
+/-- a Condorcet winner who never appears as a loser (the sparse shape of the property text) -/
+def exCW : Pairwise := [((0, 1), 3), ((0, 2), 3), ((1, 2), 2), ((2, 1), 1)]
+
+example : WF exCW := by decide +kernel
+example : IsCW exCW 0 := by decide +kernel
+example : copeland true exCW 1 = [Slot.cand 0] := by decide +kernel
+example : minimax .winningVotes exCW 3 = [Slot.cand 0, Slot.cand 1, Slot.cand 2] := by decide +kernel
+example : schulze exCW 3 = [Slot.cand 0, Slot.cand 1, Slot.cand 2] := by decide +kernel
+
 end VL.C05
